@@ -232,4 +232,20 @@ theorem strIdx_eq (xs : List Char) (a : Nat) (h : a < xs.length) :
   unfold Py.strIdx Py.getIdx?
   rw [if_pos (by omega), Int.toNat_natCast, List.getElem?_eq_getElem h]
 
+/-! ### bit 8 of an octet -/
+
+theorem band128_zero {c : Nat} (h2 : c < 128) : Py.band (c : Int) 128 = 0 := by
+  have h3 : c &&& 2 ^ 7 = 0 := by
+    rw [Py.and_two_pow_eq_zero_of_lt (by omega)]; omega
+  rw [show (128 : Int) = ((128 : Nat) : Int) from rfl, Py.band_natCast]
+  show ((c &&& 2 ^ 7 : Nat) : Int) = 0
+  rw [h3]; rfl
+
+theorem band128_nonzero {c : Nat} (h1 : 128 ≤ c) (h2 : c < 256) : Py.band (c : Int) 128 ≠ 0 := by
+  have h3 : ¬ (c &&& 2 ^ 7 = 0) := by
+    rw [Py.and_two_pow_eq_zero_of_lt (by omega)]; omega
+  rw [show (128 : Int) = ((128 : Nat) : Int) from rfl, Py.band_natCast]
+  show ((c &&& 2 ^ 7 : Nat) : Int) ≠ 0
+  omega
+
 end Asn1.Bridge
